@@ -61,6 +61,7 @@ func newSubprocessor(
 	localShardIndex ShardIndex,
 	unitsChan <-chan unitWithSender,
 	invalidUnitsChan chan<- invalidUnit,
+	processingEvents chan<- Event,
 ) subprocessor {
 	return subprocessor{
 		scheduler:       scheduler,
@@ -69,6 +70,7 @@ func newSubprocessor(
 
 		unitsChan:        unitsChan,
 		invalidUnitsChan: invalidUnitsChan,
+		processingEvents: processingEvents,
 
 		validator: NewValidator(publisher, scheduler),
 	}
@@ -328,6 +330,9 @@ func NewProcessor(localPeer peer.ID, config *Config) (*Processor, <-chan Event) 
 
 		localPeer: localPeer,
 		timeout:   timeout,
+		// replaced by the engine's logger (WithLogger); never nil, Run logs every finished
+		// subprocessor and every invalid unit
+		logger: log.NewNopZapLogger(),
 		// todo(rdr): set this ones based on the config (or some consts?)
 		concurrentTasksBounds: concurrentTasksBounds{
 			// dummy values for now
@@ -335,6 +340,12 @@ func NewProcessor(localPeer peer.ID, config *Config) (*Processor, <-chan Event) 
 			maxWorkersPerPublisher: 250,
 		},
 	}, processingEvents
+}
+
+// WithLogger sets the logger the processor reports finished subprocessors and invalid units to.
+func (p *Processor) WithLogger(logger log.StructuredLogger) *Processor {
+	p.logger = logger
+	return p
 }
 
 func (p *Processor) Run(ctx context.Context) {
@@ -453,6 +464,7 @@ func (p *Processor) createSubprocessor(
 		defer cancel()
 		subProcessor := newSubprocessor(
 			key.Publisher, scheduler, p.localPeer, localShardIndex, unitChan, p.invalidUnits,
+			p.processingEvents,
 		)
 		err := subProcessor.Run(ctx)
 		p.subProcessorsFinalized <- finalizedSubprocessor{
